@@ -2,6 +2,7 @@ package props
 
 import (
 	"fmt"
+	"strings"
 	"testing"
 
 	flags "github.com/jessevdk/go-flags"
@@ -47,6 +48,11 @@ func c10Oracle(c *ParseCase) string {
 	if rr.Panic != "" || rr.SetupErr != nil {
 		st.Label("skip: panic or setup error")
 		return ""
+	}
+	if rr.Err == nil && ref.Err != nil && strings.HasPrefix(ref.Err.Why, "positional conversion of ") {
+		// a token that cannot be converted to its field's type can neither be
+		// bound nor skipped nor handed on: the parse cannot succeed
+		return fmt.Sprintf("the parse succeeded although a plain token cannot be converted to the type of the positional field it falls on (%s); positionals %v, remaining %q", ref.Err.Why, showPos(rr), rr.Rest)
 	}
 	if rr.Err != nil || ref.Err != nil {
 		st.Label("skip: not a successful parse")
@@ -108,4 +114,17 @@ func c10Oracle(c *ParseCase) string {
 func TestC10(t *testing.T) {
 	S("C10").Rule = "positional layouts (0-3 fields of string/int/float64/custom type + optional trailing slice) on the parser and on commands x argv interleaving typed plain tokens with options, clusters and the terminator followed by option-looking tokens; (in a quarter of the cases unknown options, handled by an UnknownOptionHandler or ignored, in between); oracle: R binding (i-th plain token -> i-th field converted, slice absorbs the rest, overflow -> remaining args). non-trivial: >= 2 tokens bound and (option between two positionals | binding after '--' | overflow); distinct by (declaration signature, argv)"
 	runProp(t, "C10", genC10, c10Oracle)
+}
+
+func showPos(rr *RealResult) string {
+	var ks []string
+	for k := range rr.B.PosVal {
+		ks = append(ks, k)
+	}
+	sortStrings(ks)
+	var sb strings.Builder
+	for _, k := range ks {
+		sb.WriteString(k + "=" + ShowVal(rr.B.PosVal[k].Interface()) + " ")
+	}
+	return sb.String()
 }
